@@ -52,6 +52,9 @@ class ChanSpy(object):
     def stream(self):
         return self._i.stream
 
+    def __getattr__(self, name):
+        return getattr(self._i, name)
+
 
 class CondSpy(object):
     def __init__(self, inner, spy):
@@ -70,6 +73,22 @@ class CondSpy(object):
             return self._i.wait(timeout)
         finally:
             self._s.leave_wait()
+
+    def wait_for(self, predicate, timeout=None):
+        # the standard loop, spelled out so that every sleep goes through wait() above and is recorded
+        sim = self._s.sim
+        end = None if timeout is None else sim.now + timeout
+        result = predicate()
+        while not result:
+            left = None if end is None else end - sim.now
+            if left is not None and left <= 0:
+                break
+            self.wait(left)
+            result = predicate()
+        return result
+
+    def __getattr__(self, name):
+        return getattr(self._i, name)
 
     def notify_all(self):
         self._s.notifies += 1
@@ -146,6 +165,21 @@ class Spy(object):
                             self.blocked_at_done[seq] = (w[0] if w else ("run" if t.state != core.BLOCKED else t.what), bool(w and w[1]))
         conn._dispatch = _dispatch
         conn._get_seq_id = _get_seq_id
+        # one serve() call parks on the receive condition at most once: a woken waiter goes back to whoever called serve()
+        # (the result's wait loop) and looks at its result.  Parking again inside the same call while the awaited reply has
+        # already been processed is a stall that the known release/dispatch window (entered from the wait loop) does not explain
+        self.serve_waits = {}       # task id -> stack of cond.wait counts, one per active serve() call
+        self.reparked = []
+        orig_serve = conn.serve
+
+        def serve(*a, **k):
+            st = self.serve_waits.setdefault(sim.current.id, [])
+            st.append(0)
+            try:
+                return orig_serve(*a, **k)
+            finally:
+                st.pop()
+        conn.serve = serve
 
     def _idle(self, sim):
         """runs when every task is blocked.  A thread parks on the receive condition only because another thread holds the
@@ -163,6 +197,11 @@ class Spy(object):
         return False
 
     def check_missed(self):
+        if self.reparked:
+            t, tid, seq, n = self.reparked[0]
+            raise core.Violation("re-parked-with-reply-processed", "at t=%.3f task %s, woken from the receive condition, parked on it again (wait #%d "
+                                 "of the same serve() call) although the reply it waits for (seq %r) had already been processed by another "
+                                 "thread" % (t, self.sim.tasks[tid].name, n, seq))
         if self.missed:
             t, tid, dl = self.missed[0]
             raise core.Violation("missed-wakeup", "at t=%.3f every thread is blocked, task %s is parked in Condition.wait on the receive condition "
@@ -201,6 +240,14 @@ class Spy(object):
                     tainted = True
                     self.taints.append((self.sim.now, tid, what + "-after-dispatch", self.done_by.get(seq), seq))
                     self.sim.count("thr:taint-after-dispatch")
+        if what == "cond.wait" and (timeout is None or timeout > 0):
+            st = self.serve_waits.get(tid)
+            if st:
+                st[-1] += 1
+                if st[-1] > 1:
+                    done_elsewhere = [seq for seq in self.awaiting.get(tid, ()) if seq in self.done and self.done_by.get(seq) != tid]
+                    if done_elsewhere:
+                        self.reparked.append((self.sim.now, tid, done_elsewhere[0], st[-1]))
         self.waiting[tid] = (what, tainted, self.sim.now)
         self.sim.ev("wait", what, timeout, tainted)
 
